@@ -15,6 +15,7 @@ PROPS = {
     'C11': {'units': ['read_directories', 'pmtiles'], 'witness': 'C11'},
     'C12': {'units': ALL, 'witness': 'C12'},
     'C13': {'units': ALL + ['varint_dep'], 'witness': 'C13'},
+    'C14': {'units': ['directory'], 'witness': 'C14'},
     'C15': {'units': ALL, 'witness': 'C15'},
     'C16': {'units': ['pmtiles', 'tile_manager'], 'kani': ['latlng'], 'witness': 'C16'},
     'C17': {'units': ['pmtiles', 'header', 'write_directories', 'directory'], 'witness': 'C17'},
